@@ -89,6 +89,7 @@ func b01(b bool) string {
 
 // E2E builds a CASE.
 func E2E(src string, o Opts) Case {
+	src = strings.ToValidUTF8(src, "") // every property quantifies over valid UTF-8 text only
 	sw := swSpec(o.Sw)
 	if o.Lint {
 		sw = ""
